@@ -14,10 +14,10 @@ THEOREMS = ["TLVerif.Props.C41." + t for t in [
     "spec_insert_sorted", "spec_erase_sorted", "spec_insert_is_map", "spec_erase_is_map", "spec_lookup_is_map",
     "spec_head_smallest", "spec_last_largest",
     "tree_empty", "tree_set_refines", "tree_delete_refines", "tree_get_refines", "tree_front_refines",
-    "tree_back_refines", "tree_empty_refines", "tree_lenMoreThan1_refines", "tree_validate_ok", "tree_history_refines",
+    "tree_getptr_store_refines", "tree_back_refines", "tree_empty_refines", "tree_lenMoreThan1_refines", "tree_validate_ok", "tree_history_refines",
     "witness_chain", "avl_strict_fails_at", "avl_balance_partial", "avl_strict_after_fix", "avl_strict_iff",
     "circ_empty", "circ_push_refines", "circ_pop_refines", "circ_front_refines", "circ_index_refines", "circ_len_cap",
-    "circ_slices_refines", "circ_reserve_refines", "circ_clear_refines", "circ_swap_deepAssign", "circ_step_refines",
+    "circ_indexref_store_refines", "circ_slices_refines", "circ_reserve_refines", "circ_clear_refines", "circ_swap_deepAssign", "circ_step_refines",
     "circ_history_refines", "circ_panics_only_on_misuse", "circ_capacity",
 ]]
 
@@ -85,6 +85,12 @@ def tree_oracle(c, line, out, strict_fail):
         elif f[0] == "d":
             ref.pop(int(f[1]), None)
             exp = "."
+        elif f[0] == "u":
+            if int(f[1]) in ref:
+                ref[int(f[1])] = int(f[2])
+                exp = "1"
+            else:
+                exp = "0"
         elif f[0] == "g":
             exp = str(ref[int(f[1])]) if int(f[1]) in ref else "-"
         elif f[0] == "e":
@@ -162,6 +168,15 @@ def circ_oracle(c, line, out):
                     c.oracle_fail(line, "Index(%d) beyond Len()=%d returned %s (neither panic nor the empty value)" % (p, len(s), ob), line)
                     return
                 continue
+        elif f[0] == "x":
+            p = int(f[1])
+            if p < 0:
+                exp = "panic"
+            elif p < len(s):
+                s[p] = int(f[2])
+                exp = "."
+            else:
+                return  # undocumented use (store beyond the end): nothing is promised afterwards
         elif f[0] == "r":
             caps = max(caps, int(f[1]))
             exp = "."
@@ -205,8 +220,8 @@ def circ_oracle(c, line, out):
             return
 
 
-TREE_RE = re.compile(r"^(s:-?\d+:\d+|[dg]:-?\d+|[efbmVD])$")
-CIRC_RE = re.compile(r"^(p:\d+|[ir]:-?\d+|[qfcwalkSD])$")
+TREE_RE = re.compile(r"^([su]:-?\d+:\d+|[dg]:-?\d+|[efbmVD])$")
+CIRC_RE = re.compile(r"^(p:\d+|x:-?\d+:\d+|[ir]:-?\d+|[qfcwalkSD])$")
 
 
 def wellformed(line):
@@ -215,6 +230,120 @@ def wellformed(line):
         return False
     rx = TREE_RE if w[0] == "algo.tree" else CIRC_RE
     return all(rx.match(o) for o in w[1].split(","))
+
+
+def stats(c, line, out):
+    """input-distribution counters (what the run really exercised), from the implementation's output"""
+    if not out.startswith("ok "):
+        return
+    if line.startswith("algo.tree "):
+        c.count("tree:ops", line.count(",") + 1)
+        c.count("tree:panic-observations", out.count("panic"))
+        for m in re.finditer(r";mb=(\d+)", out):
+            c.count("tree:dumps-real-balance-" + m.group(1))
+        n = max([0] + [d.count("(") for d in out.split(",") if d.startswith("(")])
+        c.count("tree:lines-max-size-%s" % ("<=4" if n <= 4 else "<=16" if n <= 16 else "<=64" if n <= 64 else ">64"))
+    else:
+        c.count("circ:ops", line.count(",") + 1)
+        c.count("circ:panic-observations", out.count("panic"))
+        for m in re.finditer(r"([-0-9.]+)/(\d+)/(\d+)\|", out):
+            cap = 0 if m.group(1) == "-" else m.group(1).count(".") + 1
+            if int(m.group(3)) > cap:
+                c.count("circ:dumps-wrapped")
+            elif int(m.group(3)) - int(m.group(2)) == cap and cap > 0:
+                c.count("circ:dumps-full")
+
+
+# ----------------------------------------------------------------------------------------------- search / shrink
+def strip_line(line):
+    """keep only the state-changing operations of a history, then dump/observe once at the end"""
+    fam, ops = line.split(" ")
+    if fam == "algo.tree":
+        muts = [o for o in ops.split(",") if o[0] in "sdu"]
+        return muts, lambda m: "algo.tree " + ",".join(m + ["D", "V", "f", "b", "e", "m"])
+    muts = [o for o in ops.split(",") if o[0] in "pqxrcwa"]
+    return muts, lambda m: "algo.circ " + ",".join(m + ["D", "l", "k", "S", "f"] + ["i:%d" % i for i in range(-1, 12)])
+
+
+def fails(line, out):
+    class Probe:
+        n = 0
+
+        def oracle_fail(self, *a):
+            Probe.n += 1
+
+        def count(self, *a):
+            pass
+    sf = []
+    if line.startswith("algo.tree "):
+        tree_oracle(Probe(), line, out, sf)
+    else:
+        circ_oracle(Probe(), line, out)
+    return Probe.n > 0
+
+
+def shrink(line, impl, rounds=40):
+    """delta debugging over the mutator sequence, on the implementation only; returns a (usually much) shorter
+    failing history or the original line"""
+    from vlib.core import run_lines
+    muts, mk = strip_line(line)
+    out = run_lines(impl, [mk(muts)], jobs=1)
+    if not fails(mk(muts), out[0]):
+        # the failure needs an intermediate observation: keep dumps after every step
+        if line.startswith("algo.tree "):
+            mk0 = mk
+            mk = lambda m: "algo.tree " + ",".join(x for o in m for x in (o, "D")) + ",V"
+        else:
+            mk = lambda m: circ_line([], m)
+        out = run_lines(impl, [mk(muts)], jobs=1)
+        if not fails(mk(muts), out[0]):
+            return line
+    n = 2
+    for _ in range(rounds):
+        if len(muts) < 2:
+            break
+        size = max(1, len(muts) // n)
+        cands = [muts[:i] + muts[i + size:] for i in range(0, len(muts), size)]
+        cl = [mk(m) for m in cands]
+        outs = run_lines(impl, cl, jobs=min(16, len(cl)))
+        hit = [m for m, l, o in zip(cands, cl, outs) if fails(l, o)]
+        if hit:
+            muts = min(hit, key=len)
+            n = max(2, n - 1)
+        elif size == 1:
+            break
+        else:
+            n = min(len(muts), n * 2)
+    return mk(muts)
+
+
+def search(c, impl, families, rng):
+    """When the model/implementation correspondence is broken but no explored history violated the property:
+    look further on the implementation alone (longer and more numerous random histories), shrink what is found."""
+    from vlib.core import run_lines
+    lines = []
+    if "algo.tree" in families:
+        for i in range(12000 if c.thorough else 6000):
+            lines.append(tree_random(rng, rng.choice([8, 16, 40, 100]), rng.choice([100, 300, 1000]),
+                                     ["mix", "phases", "asc", "desc"][i % 4]))
+    if "algo.circ" in families:
+        for i in range(6000 if c.thorough else 3000):
+            lines.append(circ_random(rng, rng.choice([60, 200, 1000]), ["grow", "steady", "drain"][i % 3]))
+    outs = run_lines(impl, lines)
+    c.count("search:histories", len(lines))
+    bad = [l for l, o in zip(lines, outs) if fails(l, o)]
+    bad.sort(key=len)
+    found = 0
+    for l in bad[:3]:
+        sh = shrink(l, impl)
+        o = run_lines(impl, [sh], jobs=1)[0]
+        before = len(c.oracle_failures)
+        if sh.startswith("algo.tree "):
+            tree_oracle(c, sh, o, [])
+        else:
+            circ_oracle(c, sh, o)
+        found += len(c.oracle_failures) > before
+    return found
 
 
 # ----------------------------------------------------------------------------------------------- generators
@@ -227,14 +356,14 @@ def tree_line(muts, tail_keys):
     return "algo.tree " + ",".join(ops)
 
 
-def tree_exhaustive(keys, length):
+def tree_exhaustive(keys, length, with_update=False):
     """all sequences of exactly `length` Set/Delete over `keys` (shorter histories are covered as prefixes: the
     tree is dumped after every operation)."""
-    alphabet = [("s", k) for k in keys] + [("d", k) for k in keys]
+    alphabet = [("s", k) for k in keys] + [("d", k) for k in keys] + ([("u", k) for k in keys] if with_update else [])
     for seq in itertools.product(alphabet, repeat=length):
         muts = []
         for i, (o, k) in enumerate(seq):
-            muts.append("s:%d:%d" % (k, i + 1) if o == "s" else "d:%d" % k)
+            muts.append("%s:%d:%d" % (o, k, i + 1) if o != "d" else "d:%d" % k)
         yield tree_line(muts, list(keys) + [keys[0] - 1, keys[-1] + 1])
 
 
@@ -268,6 +397,8 @@ def tree_random(rng, nkeys, nops, style):
             ops.append("d:%d" % k)
             live.discard(k)
         r = rng.below(16)
+        if r == 3:
+            ops.append("u:%d:%d" % (rng.choice(sorted(live)) if live and rng.chance(2, 3) else rng.choice(keys), rng.below(1000)))
         if r == 0:
             ops.append("D")
         elif r == 1:
@@ -290,18 +421,18 @@ def circ_line(prefix, muts):
     return "algo.circ " + ",".join(ops)
 
 
-def circ_exhaustive(prefix, length):
-    alphabet = ["p", "q", "r:3", "r:5", "c", "w", "a"]
+def circ_exhaustive(prefix, length, alphabet=("p", "q", "r:3", "r:5", "c", "w", "a")):
     for seq in itertools.product(alphabet, repeat=length):
         muts = []
         for i, o in enumerate(seq):
-            muts.append("p:%d" % (i + 1) if o == "p" else o)
+            muts.append("%s:%d" % (o, i + 1) if o in ("p", "x:0", "x:1", "x:2") else o)
         yield circ_line(prefix, muts)
 
 
 def circ_random(rng, nops, style):
     ops = []
     n = 0
+    ln, lo = 0, 0  # tracked queue lengths of s and other
     if rng.chance(1, 2):
         ops.append("r:%d" % rng.below(12))
     push_w = {"grow": 6, "steady": 4, "drain": 3}[style]
@@ -313,19 +444,25 @@ def circ_random(rng, nops, style):
         if r < push_w:
             n += 1
             ops.append("p:%d" % (0 if rng.chance(1, 40) else n))
-        elif r < 9:
-            ops.append("q")
+            ln += 1
         else:
             ops.append("q")
+            ln = max(0, ln - 1)
         x = rng.below(40)
         if x == 0:
             ops.append("r:%d" % rng.below(80))
         elif x == 1:
             ops.append("c")
+            ln = 0
         elif x == 2:
             ops.append("w")
+            ln, lo = lo, ln
         elif x == 3:
             ops.append("a")
+            ln = lo
+        elif x in (10, 11):
+            n += 1
+            ops.append("x:%d:%d" % (rng.below(ln) if ln and rng.chance(7, 8) else -1 - rng.below(3), n))
         elif x < 8:
             ops.append("i:%d" % (rng.below(70) - 2))
         elif x < 10:
@@ -374,8 +511,9 @@ def run(c):
     strict_fail = []
 
     def do(name, lines):
-        res = c.tie(name, lines, impl, model)
+        res = c.tie(name, lines, impl, model, nontrivial=lambda l, a: a.startswith("ok "))
         for l, a, _ in res:
+            stats(c, l, a)
             if not wellformed(l):
                 if a != "bad-op":
                     c.oracle_fail(l, "malformed line not rejected", l)
@@ -393,6 +531,8 @@ def run(c):
         "algo.tree s:1:1,s:1:2,D,g:1", "algo.tree x", "algo.tree s:1", "algo.circ z", "algo.nope 1", "algo.circ p",
         "algo.circ q", "algo.circ f", "algo.circ i:0", "algo.circ i:-1", "algo.circ c,D,w,D,a,D,l,k,S",
         "algo.circ r:0,D,r:-5,D,r:1,D,p:7,D,p:8,D,q,D,p:9,D,q,q,D",
+        "algo.tree u:1:5,s:1:1,u:1:7,g:1,u:2:9,D,d:1,u:1:3,D", "algo.tree u:1",
+        "algo.circ x:0:5,x:-1:5,p:1,x:0:7,i:0,x:1:9,D,r:3,p:2,p:3,q,p:4,x:2:8,S,D", "algo.circ x:0",
     ]
     do("fixed", fixed)
 
@@ -405,6 +545,8 @@ def run(c):
     for keys, L in plans:
         for b in batches(tree_exhaustive(keys, L), 200000):
             do("tree-exh-%dk-%d" % (len(keys), L), b)
+    for b in batches(tree_exhaustive([1, 2], 6 if c.thorough else 5, with_update=True), 200000):
+        do("tree-exh-update", b)
     # all insertion orders of 6 (7) keys followed by every single deletion, and ascending/descending runs
     perm_n = 7 if c.thorough else 6
     lines = []
@@ -433,11 +575,19 @@ def run(c):
     for prefix, ln in (([], cl - 1), (["r:3"], cl), (["r:2", "w", "r:1"], cl - 1)):
         for b in batches(circ_exhaustive(prefix, ln), 100000):
             do("circ-exh", b)
+    for b in batches(circ_exhaustive(["r:3"], cl - 1, alphabet=("p", "q", "x:0", "x:1", "x:2", "w", "a")), 100000):
+        do("circ-exh-store", b)
     lines = []
     for i in range(4000 if c.thorough else 600):
         style = ["grow", "steady", "drain"][i % 3]
         lines.append(circ_random(rng, rng.choice([20, 60, 200]) if not c.thorough else rng.choice([20, 60, 200, 1000]), style))
     do("circ-random", lines)
+
+    # ---- search (DESIGN §1.5): correspondence broken, property not yet seen to fail -> look further
+    if c.tie_failures and not c.oracle_failures:
+        fams = set(t["line"].split(" ")[0] for t in c.tie_failures)
+        n = search(c, impl, fams, rng.fork())
+        c.notes.append("search after %d tie failures: %d failing histories reported (shrunk)" % (len(c.tie_failures), n))
 
     # ---- strict AVL balance (the property's "while staying balanced"): every failing history is an instance of the
     # same defect as the witness (new leaf stored with height 0); it is reported under the witness key only while
